@@ -1248,6 +1248,63 @@ fn gen_pearson(em: &mut Em, rng: &mut Rng) {
     }
 }
 
+/// Coverage floors (oracle-only case `#floors`): every stream and every calling form must have
+/// delivered at least a minimum number of cases, so a generator slip that silently switches a
+/// part of the check off (a form never drawn, no covered clustering, no tied scores) is reported.
+/// The minima are about two thirds of what the quick tier produces with any seed.
+fn floors(em: &mut Em) {
+    let mut need: Vec<(Vec<String>, u64)> = vec![];
+    let mut add = |subs: &[&str], min: u64| need.push((subs.iter().map(|s| s.to_string()).collect(), min));
+    add(&["cm:exhaustive"], 17000);
+    add(&["cm:random"], 600);
+    add(&["cm:mismatched"], 20);
+    for f in 1..forms::CM_FORMS {
+        add(&[&format!("cmf:form={}", forms::CM_FORM_NAMES[f])], 150);
+    }
+    add(&["roc:lowest_score_zero"], 1000);
+    add(&["roc:lowest_score_positive"], 300);
+    add(&["roc:tied_scores"], 1000);
+    for f in 1..forms::BIN_FORMS {
+        add(&[&format!("rocf:form={}", forms::BIN_FORM_NAMES[f])], 250);
+    }
+    add(&["logloss:"], 300);
+    for f in [0usize, 2, 3, 4] {
+        add(&[&format!("loglossf:form={}", forms::BIN_FORM_NAMES[f])], 80);
+    }
+    add(&["reg:lattice", ":f64:"], 400);
+    add(&["reg:lattice", ":f32:"], 200);
+    add(&["reg:lattice", "p=4+"], 5);
+    add(&["regt:generic"], 300);
+    for f in 1..forms::REG1_FORMS {
+        add(&[&format!("regf:form={}", forms::REG1_FORM_NAMES[f])], 20);
+        add(&[&format!("regtf:form={}", forms::REG1_FORM_NAMES[f])], 10);
+    }
+    for f in 1..forms::REGM_FORMS {
+        add(&[&format!("regf:form={}", forms::REGM_FORM_NAMES[f])], 20);
+        add(&[&format!("regtf:form={}", forms::REGM_FORM_NAMES[f])], 10);
+    }
+    add(&["sil:", ":covered"], 300);
+    add(&["sil:d=3+", ":covered"], 30);
+    add(&["sil32:", ":covered"], 120);
+    for f in 1..forms::SIL_FORMS {
+        add(&[&format!("silf:form={}", forms::SIL_FORM_NAMES[f])], 40);
+    }
+    add(&["pearson:", "p=5+"], 60);
+    add(&["pearson:"], 250);
+    add(&["pearson32:", "p=5+"], 30);
+    add(&["pearson32:"], 120);
+    let sums: Vec<(String, u64, u64)> = need
+        .iter()
+        .map(|(subs, min)| (subs.join("*"), em.dist.iter().filter(|(k, _)| subs.iter().all(|s| k.contains(s.as_str()))).map(|(_, v)| *v).sum::<u64>(), *min))
+        .collect();
+    em.case("#floors".to_string(), |ctx| {
+        for (k, got, min) in &sums {
+            ctx.require(got >= min, "coverage_floor", k, || format!("only {} cases of kind {} were generated, floor {}", got, k, min));
+        }
+        "-".to_string()
+    });
+}
+
 pub fn run(em: &mut Em, rng: &mut Rng) {
     gen_cm(em, rng);
     gen_cm_forms(em, rng);
@@ -1258,4 +1315,5 @@ pub fn run(em: &mut Em, rng: &mut Rng) {
     gen_reg_forms(em, rng);
     gen_sil(em, rng);
     gen_pearson(em, rng);
+    floors(em);
 }
